@@ -1,0 +1,159 @@
+//! Verification hooks (cargo feature `verif`).
+//!
+//! Thin wrappers that let an external harness drive xt's private components
+//! directly. Every item calls the existing private code; nothing here is used
+//! by xt itself, and the module does not exist with the feature off.
+
+#![allow(missing_docs, clippy::missing_errors_doc, clippy::must_use_candidate)]
+
+use std::io::{self, BufRead, Read};
+
+use crate::input;
+use crate::Format;
+
+/// Runs format detection on a slice input.
+pub fn detect_slice(input: &[u8]) -> io::Result<Option<Format>> {
+	crate::detect::detect_format(&mut input::Handle::from_slice(input))
+}
+
+/// Runs format detection on a reader input.
+pub fn detect_reader<R: Read>(input: R) -> io::Result<Option<Format>> {
+	crate::detect::detect_format(&mut input::Handle::from_reader(input))
+}
+
+/// One operation on a borrowed input reference.
+#[derive(Clone, Copy, Debug, PartialEq, Eq, Hash)]
+pub enum RefOp {
+	/// `Read::read` with a buffer of the given size (reader refs), or a copy
+	/// of that many bytes from the current position (slice refs).
+	Read(usize),
+	/// `Ref::prefix` with the given size hint.
+	Prefix(usize),
+}
+
+/// What a [`RefOp`] observed.
+#[derive(Clone, Debug, PartialEq, Eq, Hash)]
+pub enum RefObs {
+	Read(Result<Vec<u8>, String>),
+	Prefix(Result<Vec<u8>, String>),
+}
+
+/// The observable state of a reader-backed handle.
+#[derive(Clone, Copy, Debug, PartialEq, Eq, Hash)]
+pub struct HandleState {
+	pub captured_len: usize,
+	pub cursor_pos: u64,
+	pub source_eof: bool,
+}
+
+/// What taking ownership of a handle as an `Input` produced.
+pub enum OwnedInput<'i> {
+	Slice(Vec<u8>),
+	Reader(Box<dyn Read + 'i>),
+}
+
+/// Drives a real `input::Handle`.
+pub struct HandleProbe<'i>(input::Handle<'i>);
+
+impl<'i> HandleProbe<'i> {
+	pub fn from_slice(b: &'i [u8]) -> Self {
+		Self(input::Handle::from_slice(b))
+	}
+
+	pub fn from_reader<R: Read + 'i>(r: R) -> Self {
+		Self(input::Handle::from_reader(r))
+	}
+
+	/// Opens one borrow (`Handle::borrow_mut`) and runs `ops` against it.
+	/// Returns whether the borrow was slice-backed, and each observation.
+	pub fn borrow(&mut self, ops: &[RefOp]) -> (bool, Vec<RefObs>) {
+		let mut r = self.0.borrow_mut();
+		let is_slice = matches!(r, input::Ref::Slice(_));
+		let mut slice_pos = 0usize;
+		let mut out = Vec::with_capacity(ops.len());
+		for op in ops {
+			match *op {
+				RefOp::Prefix(n) => {
+					out.push(RefObs::Prefix(
+						r.prefix(n).map(<[u8]>::to_vec).map_err(|e| e.to_string()),
+					));
+				}
+				RefOp::Read(n) => match &mut r {
+					input::Ref::Slice(b) => {
+						let end = std::cmp::min(b.len(), slice_pos + n);
+						out.push(RefObs::Read(Ok(b[slice_pos..end].to_vec())));
+						slice_pos = end;
+					}
+					input::Ref::Reader(rd) => {
+						let mut buf = vec![0u8; n];
+						out.push(RefObs::Read(
+							rd.read(&mut buf)
+								.map(|len| buf[..len].to_vec())
+								.map_err(|e| e.to_string()),
+						));
+					}
+				},
+			}
+		}
+		(is_slice, out)
+	}
+
+	/// Reports the state of the underlying capture reader (`None` for slices).
+	pub fn state(&self) -> Option<HandleState> {
+		self.0
+			.verif_state()
+			.map(|(captured_len, cursor_pos, source_eof)| HandleState {
+				captured_len,
+				cursor_pos,
+				source_eof,
+			})
+	}
+
+	/// `From<Handle> for Input`.
+	pub fn into_input(self) -> OwnedInput<'i> {
+		match input::Input::from(self.0) {
+			input::Input::Slice(b) => OwnedInput::Slice(b.into_owned()),
+			input::Input::Reader(r) => OwnedInput::Reader(r),
+		}
+	}
+
+	/// `TryFrom<Handle> for Cow<[u8]>`.
+	pub fn into_cow(self) -> io::Result<Vec<u8>> {
+		std::borrow::Cow::<[u8]>::try_from(self.0).map(std::borrow::Cow::into_owned)
+	}
+}
+
+/// `yaml::encoding::Encoder::from_reader`.
+pub fn yaml_reencode<'r, R: BufRead + 'r>(reader: R) -> io::Result<Box<dyn Read + 'r>> {
+	crate::yaml::verif_reencode(reader)
+}
+
+/// `yaml::encoding::Encoding::detect`.
+pub fn yaml_detect_encoding(prefix: &[u8]) -> &'static str {
+	crate::yaml::verif_detect_encoding(prefix)
+}
+
+/// Iterates `yaml::chunker::Chunker` directly over `reader`, stopping (and
+/// dropping the chunker) after `stop_after` items if given. Each item is the
+/// document text and whether it is a collection, or the error text.
+pub fn yaml_chunks<R: Read>(
+	reader: R,
+	stop_after: Option<usize>,
+) -> Vec<Result<(String, bool), String>> {
+	crate::yaml::verif_chunks(reader, stop_after)
+}
+
+/// Pulls raw parser events (type code, start offset, end offset) from the
+/// libyaml binding over `reader`, stopping (and dropping the parser) after
+/// `stop_after` events if given, at STREAM-END, or at the first error.
+pub fn yaml_events<R: Read>(
+	reader: R,
+	stop_after: Option<usize>,
+) -> (Vec<(u32, u64, u64)>, Option<String>) {
+	crate::yaml::verif_events(reader, stop_after)
+}
+
+/// `msgpack::next_value_size` with the production depth limit.
+pub fn msgpack_value_size(input: &[u8]) -> Result<usize, String> {
+	crate::msgpack::verif_value_size(input)
+}
